@@ -19,7 +19,7 @@ CLAIMS = {
             "counting and items_contain callables. Tied to the source by regenerating ValidaGen on every run and by the differential "
             "run (implementation vs model) plus an independent Python oracle of the documented meaning as failing-input search.",
             "DESIGN.md section 7 C01"),
-    "C02": ("15 theorems (ValidaProofs/C02.lean): pointwise Boolean combination at any depth, null identity, key/index mixing refused, "
+    "C02": ("16 theorems (ValidaProofs/C02.lean, C02Spec.lean): `C02_spec_list_pointwise` - a spec list {op: [s1..sn]} whose items parse to non-null conditions parses to a condition whose filter result is, item by item, the left fold of op over the operands' results; pointwise Boolean combination at any depth, null identity, key/index mixing refused, "
             "no tree aborts; object level: Heap.construct under type.__call__ never writes an existing object, keeps the heap acyclic and "
             "every older object's denotation, for every history (induction over the operation list); the __init__ guard is read from the "
             "source. Differential run over trees and object histories (identity-aware).",
